@@ -51,3 +51,59 @@ func VerifIsWaiting(qid uint64) bool {
 	}
 	return false
 }
+
+// ---- C17 lifecycle suite (qlife)
+
+// VerifWaitingObj returns the first queued object of qid, or nil.
+func VerifWaitingObj(qid uint64) *RunningQueryState {
+	waitingQueriesLock.Lock()
+	defer waitingQueriesLock.Unlock()
+	for _, w := range waitingQueries {
+		if w.qid == qid {
+			return w.rQuery
+		}
+	}
+	return nil
+}
+
+// VerifWaitingHead returns the object at the head of the queue, or nil.
+func VerifWaitingHead() *RunningQueryState {
+	waitingQueriesLock.Lock()
+	defer waitingQueriesLock.Unlock()
+	if len(waitingQueries) == 0 {
+		return nil
+	}
+	return waitingQueries[0].rQuery
+}
+
+// VerifWaitingQids lists the queue in order.
+func VerifWaitingQids() []uint64 {
+	waitingQueriesLock.Lock()
+	defer waitingQueriesLock.Unlock()
+	res := make([]uint64, 0, len(waitingQueries))
+	for _, w := range waitingQueries {
+		res = append(res, w.qid)
+	}
+	return res
+}
+
+// VerifRunningQids lists the keys of the running table (unordered).
+func VerifRunningQids() []uint64 {
+	arqMapLock.RLock()
+	defer arqMapLock.RUnlock()
+	res := make([]uint64, 0, len(allRunningQueries))
+	for q := range allRunningQueries {
+		res = append(res, q)
+	}
+	return res
+}
+
+// VerifTimeoutArmed reports whether the object's timeoutCancelFunc is set.
+func (rQuery *RunningQueryState) VerifTimeoutArmed() bool {
+	rQuery.rqsLock.Lock()
+	defer rQuery.rqsLock.Unlock()
+	return rQuery.timeoutCancelFunc != nil
+}
+
+// VerifCanRunQuery is the admission test of the PullQueriesToRun loop.
+func VerifCanRunQuery() bool { return canRunQuery() }
